@@ -44,11 +44,46 @@ CHECKS = {
             "Generated histories (incl. rejected writes, reopen with and without close, index creation with backfill and index removal) over generated subsets of unique / array / map-keyed / optional / multi-field B-tree, BM25 and HNSW indexes on three backends; after EVERY op ids/len/contains/get agree with the model, keys() of every B-tree equals the key set derived from the documents and Eq(k) returns exactly the documents carrying k, every vocabulary word's text search returns exactly the live documents containing it, the vector index holds one entry per live document and returns only live distinct ids. The same observation runs after recovery from every crash point explored by C01.",
             "Trusts the harness's own derivation of index keys from documents (documented default IndexHooks), virtual_field_value for composite keys (the public helper callers must use) and proptest. Custom hooks/tokenizers are not generated; creating a unique index over already-duplicated data is treated as a caller error and not generated.",
             "§5 C02"),
+    "C03": ("vf-db", "exploration",
+            "property-based testing of generated filter trees against the harness's own set-algebra evaluator (reference model), equivalence (metamorphic) rewrites, bounded-page and filtered-search oracles",
+            "Generated collections (ids uncorrelated with keys, duplicates, arrays, map keys, Null/absent values, holes) x generated Filter / RangeQuery trees over _id and 7 B-tree indexes x limits {None, 0, 1, .., n+1, MAX+1} x both entry points: query_all_ids equals the set-algebra reading (ascending, duplicate-free), query_ids / query_last_ids equal the first / last limit elements of it, And[f] / Not(Not f) / Or[f,f] return and page identically, search_ids with a filter equals the complete relevance-ordered candidate list restricted to the match set.",
+            "Trusts the harness evaluator (range-level Not = complement over indexed keys, filter-level Not = complement over the collection, as the statement says); trees containing an empty And get only the self-consistency oracle (the statement does not define the empty intersection); collections stay below MAX_SEARCH_LIMIT; composite (multi-field) keys are not range-queried.",
+            "§5 C03"),
+    "C04": ("vf-db", "exploration",
+            "model-based stateful property testing (proptest histories with rejected writes), systematic and generated schedule exploration of contending writers (ParkStore on a single-threaded executor), schedule x crash and schedule x injected-failure exploration",
+            "(a) conflict-heavy generated histories over unique scalar, unique array and unique multi-field indexes: after EVERY op each unique key has exactly the model's holder and the full index observation equals the model, which rejected writes leave untouched; (b) 9 contender sets for one unique value under every release order of their backend steps (Wing-Gong oracle); (e) the power is cut at every decision point of enumerated schedules (and at generated points / with one injected failing call for generated sets) and the recovered collection must have no duplicate unique value, consistent indexes, acknowledged writes in effect, rejected writes absent.",
+            "Schedules are owned at backend-call granularity on one thread (T4); true multi-core races inside a synchronous section are not explored. One listed known finding (unique value released before its release is durable) is recognised by its schedule signature, counted and excluded. Uniqueness across processes is outside the contract.",
+            "§5 C04"),
+    "C05": ("vf-db", "exploration",
+            "systematic (all interleavings for 2-op sets) and generated schedule exploration over a parking object store on a single-threaded executor, with a Wing-Gong linearizability search against the sequential model",
+            "17 fixed two-operation sets (same-document update/update, update/remove, remove/remove, contended unique values, operations racing flush, extension pairs, readers overlapping writers) under EVERY release order of their backend mutations, and generated sets of 2-4 operations under generated schedules: some order of the mutating ops consistent with per-document real-time order must reproduce every return value and the final documents/extensions; all indexes agree with the final documents; reads return whole documents some call wrote; the storage as it was when a concurrent flush returned reopens to a prefix state.",
+            "The harness owns the schedule only at backend-call granularity on a single-threaded executor; interleavings inside one synchronous section on different cores are not explored (no multi-threaded stress sub-check is registered). Trusts the sequential model, ParkStore and quiescence detection (4 stable scheduler rounds).",
+            "§5 C05"),
     "C13": ("vf-schema", "exploration",
             "type-directed property-based testing (proptest: FieldType grammar x choice-sequence values valid by construction, single-mutation invalid values, exhaustive complexity-budget boundary grid, fixed derive structs, schema upgrade chains) against the harness's own fold canon(type, value) and model of the documented validation rules",
             "Documents generated from FieldType trees (depth <= 4, every constructor, boundary numerics, every documented read-back shape) are written through set_field, Document::try_from, FieldEntry::coerce and set_field_as, stored as Collection stores them and read back: every field must equal the harness's fold into the declared variant and a second round trip is a fix-point; single mutations (12 kinds) and the complete budget grid at limit-1/limit/limit+1 must be refused by every entry point that can express them; any accepted value, valid or not, must stay readable; 8 derive structs covering the inference table reproduce T bit for bit; 2-5-version upgrade chains keep surviving fields, drop removed ones, never resurrect re-added top-level names, and every documented-forbidden upgrade is refused.",
             "Trusts cbor2 and proptest; stored form = cbor2 of Document as in anda_db::Collection. Folds two serde-inherent ambiguities (Json null under Option; non-finite float at a Json position -> null). Entry points are compared only on values both can express. Two listed known findings are excluded by construction and reproduced by the finding_probes sub-check. JSON serialisation of FieldValue and CBOR byte fuzzing are not covered.",
             "§5 C13"),
+    "C14": ("vf-server", "exploration",
+            "complete request-matrix enumeration over generated admin histories (proptest), non-interference across six name-rotated worlds, logging object store (per-request mutation log), admin/key-holder logical-state differential (two-world)",
+            "Every (route, method from the tables extracted from api/mod.rs at run time + unknown / non-string / garbage / oversized bodies, principal incl. none / malformed / garbage / admin / bound / revoked keys, encoding x Accept, addressed name, own / foreign parameters) cell is enumerated completely after each of 6 fixed and N generated admin histories. Rejections must be byte-identical (status, headers, body) whatever the addressed name is in each of six worlds that rotate the names over the roles; bound-key requests may show no foreign marker and write only under their own prefix; Read-classified methods leave the mutation log empty on clean, read-only and dirty state; all answers recur after restart.",
+            "Sequential requests only (no concurrency). Timing equalisation, numeric side channels, TLS / proxy layers and anda_db_shard_proxy are not covered. Read/Mutating classes are taken from the source table; only the names are probe-validated (extraction failure = exit 2).",
+            "§5 C14"),
+    "C15": ("vf-kip", "exploration",
+            "grammar-based generation on a choice tape with typed tokens, token-level mutation, arbitrary Unicode and limit padding; metamorphic relations (keyword case, whitespace, comments), cross-entry-point differential, serde round trip, explicit budget cases parsed in a child process",
+            "Hundreds of thousands of generated KQL / KML / META sentences (every statement family, acceptance rate per family measured and enforced), their token-level mutations, the repository's conformance fixtures and arbitrary Unicode: every parse returns Ok or Err; parse_kip agrees with exactly the matching specific entry point; case / whitespace / comment variants parse to an equal AST; accepted commands re-validate, survive a JSON round trip and never ignore junk on a following line; inputs beyond the documented length / nesting limits are refused with the resource error even when they are garbage, and brackets inside strings or comments do not count.",
+            "Unbounded work is decided only as a hang (watchdog, exit 2); only the 2 MiB stack regime is covered; inputs above 1 MiB are checked for refusal only; the JSON round trip tolerates serde_json's own 128-level text-decoder limit. No libFuzzer campaign is registered for this property.",
+            "§5 C15"),
+    "C16": ("vf-kip", "exploration",
+            "complete clause x binding x block x field x spelling matrix and enumerated statement rules as text and as would-be tree, generated handle-graph plans and ASSERT statements against an independent expansion, JSON tree mutations; an independent walker written from the specification over everything the parsers / validator accept",
+            "The complete matrix (103 550 cells: 9 clause families x 73 target bindings x blocks x 25 field names x 9 spellings, each bare and inside MUTATE, as text and as tree), 1 628 enumerated rule cases, generated multi-clause plans with handle graphs, generated ASSERT statements compared with the harness's own desugaring, and 20 kinds of JSON mutations of accepted trees: nothing parse_kip / parse_kml / parse_meta / validate_command accept may assign a protected or immutable-payload field, mutate structure of an immutable kind, use BELIEF in a mutation or export selection, leave a handle unbound or bound twice, create from a bare id or select by a mutable field; text and tree routes agree.",
+            "Static half only: the target kind is what the statement's own WHERE binds syntactically; schema-defined immutability and direct :id targets need the engine (the dynamic half planned in DESIGN is not registered). Two genuine defects found by this check were repaired (known_findings.json: fixed).",
+            "§5 C16"),
+    "C20": ("vf-nexus", "exploration",
+            "differential against a harness reference (documented eligibility stages, graph connected components over shared actor / evidence, score = 1 - prod(1 - strongest confidence per group), accept/material table), order-permutation invariance, metamorphic laws, bounded-exhaustive enumeration of the grouping alphabet, through real KML/KQL",
+            "Bounded-exhaustive on the grouping alphabet (3 actors x evidence subsets of size <= 2 = 21 assertion types): all multisets of <= 3 assertions in all orders (quick) / <= 5 (thorough), plus all 24 orders of every 3-way-bridge 4-multiset; randomized beyond (<= 8 assertions, rivals of a functional predicate, stances, confidences incl. unstated, modes, validity windows, retract / supersede, evaluation times, policy overrides). Status, group counts, id sets, exclusion reasons and scores (1e-9) must equal the reference, be independent of recording order, never report rejected without opposition, never gain groups or score from repetition, never lose score when a group's strongest confidence rises, and name the policy.",
+            "Policy selection is limited to what WITH EPISTEMIC exposes; trust / evidence-quality stages are unimplemented in the engine and not covered; expiry is covered as a past validity window; at most one unattributed assertion per multiset (documentation and behaviour disagree on how those group; the property does not say); statuses within 1e-9 of a threshold are checked as one of the two adjacent ones.",
+            "§5 C20"),
 }
 
 NOT_YET = {
